@@ -52,3 +52,8 @@ fn anonymous_defs_are_not_listed_and_multiclass_template_arguments_are_children(
     let got: Vec<String> = outline(&[("/main.td", t)], 0).into_iter().filter(|l| !l.contains("_one")).collect();
     assert_eq!(got, vec!["class A @A", "multiclass M @M", "  targ x @x", "  targ s @s", "def named @named"], "WITNESS outline of {t:?}");
 }
+#[test]
+fn defs_declared_inside_let_if_and_foreach_blocks_are_listed() {
+    let t = "class A { int v = 0; }\nlet v = 1 in { def inlet : A; }\nif !eq(1, 1) then { def inthen : A; } else { def inelse : A { let v = 2; } }\nforeach i = [1] in { def inloop : A; }\nclass Last;\n";
+    assert_eq!(outline(&[("/main.td", t)], 0), vec!["class A @A", "  field v @v", "def inlet @inlet", "def inthen @inthen", "def inelse @inelse", "  field v @v", "def inloop @inloop", "class Last @Last"], "WITNESS outline of {t:?}");
+}
